@@ -774,6 +774,13 @@ def _slice_1d_call_patterns(result, dim_shape, lengths, index, j, q):
     return {"keys-are-blocks": [sel], "piece-count": [sel], "direction": [sel]}
 
 
+def _slice_1d_int_call_patterns(result, dim_shape, lengths, index, j):
+    import z3
+    return {"key-is-containing-block": [z3.Select(result.has, j)]}
+
+
+slice_1d__int.call_patterns = staticmethod(_slice_1d_int_call_patterns)
+slice_1d__int._contract.call_patterns = _slice_1d_int_call_patterns
 slice_1d__slice.call_patterns = staticmethod(_slice_1d_call_patterns)
 slice_1d__slice._contract.call_patterns = _slice_1d_call_patterns
 
